@@ -21,7 +21,31 @@ from concurrent.futures import ThreadPoolExecutor
 
 import common
 
-SCRATCH_ROOT = os.environ.get("VERIF_SCRATCH", "/var/tmp/verif-scratch")
+def _stray_state_dir(d):
+    """a .redo in an ancestor of the scratch root would be taken for the base of every
+    scratch project (base selection walks up): the checks would then measure
+    somebody else's database, not the code"""
+    d = os.path.realpath(d)
+    while True:
+        d2 = os.path.dirname(d)
+        if d2 == d:
+            return None
+        d = d2
+        if os.path.isdir(os.path.join(d, ".redo")):
+            return os.path.join(d, ".redo")
+
+
+def _pick_scratch_root():
+    cands = [os.environ["VERIF_SCRATCH"]] if os.environ.get("VERIF_SCRATCH") else []
+    cands += ["/var/tmp/verif-scratch", "/tmp/verif-scratch", os.path.expanduser("~/.cache/verif-scratch"), "/dev/shm/verif-scratch"]
+    for c in cands:
+        if _stray_state_dir(os.path.join(c, "x")) is None:
+            return c
+    raise common.Broken("environment: every candidate scratch root has a .redo directory in an ancestor (%s); remove it"
+                        % ", ".join("%s: %s" % (c, _stray_state_dir(os.path.join(c, "x"))) for c in cands))
+
+
+SCRATCH_ROOT = _pick_scratch_root()
 BASE_RUN = 1000000000
 
 
